@@ -78,6 +78,8 @@ def make_plan(seed: int, tier: str) -> dict:
         elif k == "refit":
             op.update(n_iter=st.randint(2, 4), aseed=st.randint(0, 5))
         plan["ops"].append(op)
+    if origin == "load" and st.bernoulli(0.25):
+        plan["tiny_noise"] = st.choice([5e-4, 1e-4, 1e-6])   # a nearly noise-free marker (hand-written / synthetic calibration)
     return plan
 
 
@@ -164,7 +166,15 @@ def run_plan(plan: dict) -> dict:
                 model = workload.make_model(kind, nf)
                 model.fit(workload.to_data(df0, kind), "mcmc_saem", n_iter=plan["fit_iter"], seed=1, progress_bar=False)
             else:
-                model = ac.load_from_settings(ac.handwritten_settings(Stream(plan["mseed"], "model"), kind, nf))
+                hs = ac.handwritten_settings(Stream(plan["mseed"], "model"), kind, nf)
+                if plan.get("tiny_noise") and "noise_std" in hs["parameters"]:
+                    ns_ = hs["parameters"]["noise_std"]
+                    if isinstance(ns_, list):
+                        ns_[len(ns_) // 2] = plan["tiny_noise"]
+                    else:
+                        hs["parameters"]["noise_std"] = plan["tiny_noise"]
+                    C["probe.tiny_noise_level"] += 1
+                model = ac.load_from_settings(hs)
     except Exception as e:
         out["discarded"] = f"setup:{type(e).__name__}"
         out["digest"] = "setup-failed"
